@@ -845,6 +845,18 @@ func main() {
 		}
 		groups = append(groups, enumerate(cfg, full, 0, "full"))
 	}
+	// split long chains so that all cores are used (node ownership of the rejected-ops sweeps is static)
+	var split []*group
+	for _, g := range groups {
+		const max = 40
+		for i := 0; i < len(g.jobs) || i == 0; i += max {
+			c := *g
+			c.jobs = g.jobs[i:min(i+max, len(g.jobs))]
+			c.restart = g.restart && i == 0
+			split = append(split, &c)
+		}
+	}
+	groups = split
 	if n := os.Getenv("C12_MAXJOBS"); n != "" {
 		var k int
 		fmt.Sscan(n, &k)
@@ -858,11 +870,11 @@ func main() {
 	gsz := map[string]int{}
 	for _, g := range groups {
 		njobs += len(g.jobs)
-		gsz[g.label+"/"+g.cfg.name] = len(g.jobs)
+		gsz[g.label+"/"+g.cfg.name] += len(g.jobs)
 	}
 	// longest chains first
 	sort.SliceStable(groups, func(i, j int) bool { return len(groups[i].jobs)*len(groups[i].alphabet) > len(groups[j].jobs)*len(groups[j].alphabet) })
-	r.Sample(map[string]any{"histories_per_chain": gsz, "alphabets": map[string]int{"core": len(core), "wide": len(wide), "full": len(full), "reduced": len(red)}})
+	r.Sample(map[string]any{"histories_per_alphabet_and_config": gsz, "chains_part1": len(groups), "alphabets": map[string]int{"core": len(core), "wide": len(wide), "full": len(full), "reduced": len(red)}})
 	if g := groups[0]; len(g.jobs) > 0 {
 		r.Sample(map[string]any{"example_history": fmt.Sprint(g.jobs[len(g.jobs)/3].seq), "config": g.cfg.name})
 	}
@@ -885,7 +897,7 @@ func main() {
 		"registry = purpose-built realm at gno.land/r/sys/names exposing IsAuthorizedAddressForNamespace (the interface the keeper calls); the examples/ realm needs the whole govdao tree",
 		"private packages may be redeployed (by anyone when no registry is configured): the statement protects public entries only",
 	}
-	r.Finish(fmt.Sprintf("state graph of MsgAddPackage histories: <=%d accepted deployments over the 22-op alphabet on the colliding path (+ the same sequences inside one block), <=%d over the %d-op path-menu alphabet, <=%d over an 8-op reduced alphabet, the full %d-op product at the initial state; every model-rejected op of the alphabet delivered at every visited state; x3 registry configurations; restart of 3 chains; + the /p/ mutation menu (80 attempts, each first on a fresh package, then all in sequence both ways); distinct = distinct (alphabet, config, model state) nodes + same-block sequences + mutation cases",
+	r.Finish(fmt.Sprintf("state graph of MsgAddPackage histories: <=%d accepted deployments over the 22-op alphabet on the colliding path (+ the same sequences inside one block), <=%d over the %d-op path-menu alphabet, <=%d over an 8-op reduced alphabet, the full %d-op product at the initial state; every model-rejected op of the alphabet delivered at every visited state; x3 registry configurations; restart of 3 chains; + the /p/ mutation menu (25 statements x 5 forms, each first on a fresh /p/ package, then all in sequence both ways, + an escalation scenario); distinct = distinct (alphabet, config, model state) nodes + same-block sequences + mutation cases",
 		dCore, dWide, len(wide), dRed, len(full)),
 		true, map[string]any{"states": nStatesSeen.Load(), "transitions": nTx.Load(), "traces_validated_against_impl": nTx.Load(),
 			"observation_checks": nChecks.Load(), "chains": nChains.Load(), "histories": njobs, "depth": map[string]int{"core": dCore, "wide": dWide, "reduced": dRed}})
